@@ -15,7 +15,7 @@ def Score1.bits : Score1 → Nat
   | .nan => 0x7FF8000000000001
   | .pinf => 0x7FF0000000000000
   | .ninf => 0xFFF0000000000000
-  | .ascii s => (if (splitSign s).1 then 2 ^ 63 else 0) + natToF64Bits ((decToNat? (splitSign s).2).getD 0)
+  | .ascii s => (parseF64 s).getD 0
 
 def QNode.vals : QNode → List Bytes
   | .plain s => [s.val]
